@@ -306,8 +306,15 @@ fn fault_free_plan(rng: &mut Rng, w: &Workload, max_events: usize, unknown: bool
     plan.net = gen::gen_net(rng);
     gen::gen_changes(rng, &mut plan, max_events, unknown, max_names);
     gen::tame_net_for_big_plans(&mut plan);
-    if rng.chance(1, 3) {
+    let long_quiet = rng.chance(1, 40);
+    if long_quiet {
+        gen::add_long_quiet(rng, &mut plan, &mut ids);
+    }
+    if long_quiet || rng.chance(1, 3) {
         gen::retarget_changes(rng, &mut plan);
+    }
+    if rng.chance(1, 12) {
+        plan.consumer = gen::ticking_consumer(rng, &plan);
     }
     plan
 }
@@ -456,20 +463,17 @@ fn gen_c04(rng: &mut Rng) -> Plan {
         });
     }
     gen::tame_net_for_big_plans(&mut plan);
-    if rng.chance(1, 2) {
+    let long_quiet = rng.chance(1, 40);
+    if long_quiet {
+        gen::add_long_quiet(rng, &mut plan, &mut ids);
+    }
+    if long_quiet || rng.chance(1, 2) {
         gen::retarget_changes(rng, &mut plan);
     }
     // the application's event loop has a ticker of its own: it waits for the next event only
     // until the next tick and then starts a new wait (unfinished `next()` futures are dropped)
     if rng.chance(1, 6) {
-        plan.consumer = Consumer::Ticking {
-            period_ms: *rng.pick(&[1u64, 1, 2, 3, 7]),
-            until_ms: (gen::rough_span(&plan)
-                .max(plan.changes.iter().map(|c| c.at_ms).max().unwrap_or(0))
-                + 300)
-                .min(4000),
-            form: rng.below(3) as u8,
-        };
+        plan.consumer = gen::ticking_consumer(rng, &plan);
     }
     // rarely: a flood of notifications while the application is not polling its receiver
     if rng.chance(1, 200) {
@@ -886,6 +890,8 @@ fn gen_c08(rng: &mut Rng) -> Plan {
     gen::gen_changes(rng, &mut plan, 3, false, 2);
     if rng.chance(1, 8) {
         plan.consumer = Consumer::DropAt(rng.below(200));
+    } else if rng.chance(1, 10) {
+        plan.consumer = gen::ticking_consumer(rng, &plan);
     }
     if w.drops && rng.chance(1, 2) {
         plan.keep_main_handle = false;
